@@ -145,7 +145,7 @@ def run_c01(ctx, q, b, stats):
     ctx.replay(b, big, opts=dict(cfgs='plain/prefix', api='mix', salt=2, stats=stats, shape=1), par=8, timeout=7200)
     # the in-memory node cache, each store in a process of its own; Reopen is a process restart
     keep = os.path.join(ctx.scratch, 'keep')
-    sub = big[:len(big) // 4] if q else big[:len(big) // 10]
+    sub = big[:len(big) // 6] if q else big[:len(big) // 10]
     ctx.replay(b, sub, opts=dict(cfgs='plain', ccfgs='memtree+val', kcfgs='prefix+memtree', api='store', salt=3, stats=stats, keepdir=keep, histdir=vlib.REPLAYS), par=6, count=False, timeout=7200)
     if not q:
         for sd in range(1, 3):
@@ -222,14 +222,14 @@ def run_c04(ctx, q, b, stats):
     ctx.extra['exhaustive_small_config'] = dict(cfg=cfg, behaviours=len(allb))
     ctx.replay(b, allb, opts=dict(cfgs='plain/prefix', api='mix', salt=1, stats=stats), par=8, timeout=7200)
     keep = os.path.join(ctx.scratch, 'keep')
-    sub = allb[::16] if q else allb[::40]
+    sub = allb[::32] if q else allb[::40]
     ctx.replay(b, sub, opts=dict(cfgs='prefix', ccfgs='memtree+val', kcfgs='prefix+memtree', api='store', salt=2, restart='kill', stats=stats, keepdir=keep, histdir=vlib.REPLAYS),
                par=6, count=False, timeout=7200)
     _selftest_replay(ctx, b, allb, dict(cfgs='plain'))
     n = 120 if q else 1200
     sim = ctx.tlc_sim('StateStore_MC', 'StateStore_GenC04.cfg', num=n, depth=20, timeout=7200)
     ctx.replay(b, sim, opts=dict(cfgs='plain/prefix/prune', api='mix', salt=3, stats=stats), par=8, timeout=7200)
-    ctx.replay(b, sim[:len(sim) // 4] if q else sim[:len(sim) // 8], opts=dict(cfgs='plain', ccfgs='prefix+memtree/memtree+val', kcfgs='prune+memtree+val', api='mix', salt=4,
+    ctx.replay(b, sim[:len(sim) // 6] if q else sim[:len(sim) // 8], opts=dict(cfgs='plain', ccfgs='prefix+memtree/memtree+val', kcfgs='prune+memtree+val', api='mix', salt=4,
                                                                     stats=stats, keepdir=keep, histdir=vlib.REPLAYS), par=6, count=False, timeout=7200)
     if not q:
         for sd in range(1, 3):
